@@ -428,11 +428,22 @@ let gen_bad_v5 r : hcfg * Byte0.byte list =
   end else (c, unit_of c (bytes_of_ints [1]))
 
 (* ------------------------------------------------------------------ streams *)
+(* every case draws from its own generator seeded by (seed, stream salt, index), so a shard only
+   generates (and evaluates) its own cases *)
+let per_case emit ~seed ~salt ~n (f : rng -> int -> string * (bool -> string)) =
+  for i = 1 to n do
+    if mine () then begin
+      let r = mk_rng ((seed * 1000003 + salt) * 1000003 + i) in
+      ignore (next64 r);
+      let (case, ex) = f r i in
+      emit case (ex true) (ex false)
+    end else emit "" "" ""
+  done
+
 let () =
   register "c04.hdr" ~doc:"LineProgramHeader::parse: v2-5 x formats x address sizes x endianness, v5 entry formats; mutated/truncated units"
     (fun ~seed ~n emit ->
-      let r = mk_rng seed in
-      for i = 1 to n do
+      per_case emit ~seed ~salt:1 ~n (fun r i ->
         let c, bytes =
           if i mod 16 = 0 then gen_bad_v5 r
           else begin
@@ -442,84 +453,77 @@ let () =
             let b = if rand_int r 8 = 0 then b @ gen_noise r (1 + rand_int r 5) else b in     (* trailing units *)
             (c, if i mod 3 = 0 then mutate_unit r c b else b)
           end in
-        both emit (case "c04.hdr" c bytes) (fun dbg -> exp_hdr dbg c.be c.asz bytes)
-      done);
+        (case "c04.hdr" c bytes, fun dbg -> exp_hdr dbg c.be c.asz bytes)));
   register "c04.hdrspec" ~doc:"well-formed units: the decoded header equals header_of_raw (spec value)"
     (fun ~seed ~n emit ->
-      let r = mk_rng (seed + 77) in
-      for _ = 1 to n do
+      per_case emit ~seed ~salt:2 ~n (fun r _ ->
         let c = gen_raw r ~version:(any_version r) ~wild:false in
         let prog = gen_noise r (rand_int r 6) in
         let bytes = unit_of c prog in
         let tail = if rand_int r 4 = 0 then gen_noise r (1 + rand_int r 5) else [] in
-        one emit (case "c04.hdr" c (bytes @ tail)) (fun () -> "ok " ^ pr_header (hdr_of c prog))
-      done);
+        let e = lazy ("ok " ^ pr_header (hdr_of c prog)) in
+        (case "c04.hdr" c (bytes @ tail), fun _ -> Lazy.force e)));
   register "c04.insn" ~doc:"LineInstruction::parse through header.instructions(): structured + wild programs"
     (fun ~seed ~n emit ->
-      let r = mk_rng (seed + 1) in
-      for _ = 1 to n do
+      per_case emit ~seed ~salt:3 ~n (fun r _ ->
         let c = gen_raw r ~version:(any_version r) ~wild:true in
         let bytes = unit_of c (gen_any_prog r c) in
-        both emit (case "c04.insn" c bytes) (fun dbg -> exp_insn dbg c.be c.asz bytes)
-      done);
+        (case "c04.insn" c bytes, fun dbg -> exp_insn dbg c.be c.asz bytes)));
   register "c04.op1" ~doc:"per sampled header: every opcode byte 0..255 as a one-instruction program (exhaustive), 3 operand tails, after a non-trivial prefix"
     (fun ~seed ~n emit ->
-      let r = mk_rng (seed + 2) in
       for k = 1 to n do
-        let c = gen_raw r ~version:(any_version r) ~wild:false in
-        let h = hdr_of c [] in
-        let asz = int_of_n h.h_addr_size in
-        let prefix = if k mod 2 = 0 then [] else
-          enc_prog c.be h [ISetAddress (ni 16); IAdvanceLine (cz_of_int 9); ISetFile (ni 3)] in
-        let tails = [|
-          bytes_of_ints [1 + asz; 2; 0x20; 0; 0; 0; 0; 0; 0; 0; 1; 0; 1; 1];
-          bytes_of_ints [0x85; 0x01; 0x02; 0x83; 0x00; 0x01; 0x00; 0x01; 0x01];
-          bytes_of_ints (rand_bytes r 12) |] in
-        Array.iter (fun tail ->
-          for op = 0 to 255 do
+        for j = 0 to 767 do
+          if mine () then begin
+            let r = mk_rng ((seed * 1000003 + 4) * 1000003 + k) in
+            ignore (next64 r);
+            let c = gen_raw r ~version:(any_version r) ~wild:false in
+            let h = hdr_of c [] in
+            let asz = int_of_n h.h_addr_size in
+            let prefix = if k mod 2 = 0 then [] else
+              enc_prog c.be h [ISetAddress (ni 16); IAdvanceLine (cz_of_int 9); ISetFile (ni 3)] in
+            let tail = match j / 256 with
+              | 0 -> bytes_of_ints [1 + asz; 2; 0x20; 0; 0; 0; 0; 0; 0; 0; 1; 0; 1; 1]
+              | 1 -> bytes_of_ints [0x85; 0x01; 0x02; 0x83; 0x00; 0x01; 0x00; 0x01; 0x01]
+              | _ -> bytes_of_ints (rand_bytes r 12) in
+            let op = j mod 256 in
             let bytes = unit_of c (prefix @ (byte_of_int op :: tail)) in
-            both emit (case "c04.op1" c bytes) (fun dbg -> exp_op1 dbg c.be c.asz bytes)
-          done) tails
+            emit (case "c04.op1" c bytes) (exp_op1 true c.be c.asz bytes) (exp_op1 false c.be c.asz bytes)
+          end else emit "" "" ""
+        done
       done);
   register "c04.prog" ~doc:"well-formed programs (spec encoders, state-aware boundary operands): rows = rows_spec"
     (fun ~seed ~n emit ->
-      let r = mk_rng (seed + 3) in
-      for _ = 1 to n do
+      per_case emit ~seed ~salt:5 ~n (fun r _ ->
         let c = gen_raw r ~version:(any_version r) ~wild:false in
         let is = gen_wf_prog r c (rand_int r 40) in
         let h0 = hdr_of c [] in
         let prog = enc_prog c.be h0 is in
         let h = hdr_of c prog in
         let bytes = unit_of c prog in
-        one emit (case "c04.prog" c bytes) (fun () ->
+        let e = lazy (
           if not (prog_wf h is) then "GENERATOR-NOT-WF"
           else begin
             let spec = String.concat " " ("ok" :: List.map pr_srow (rows_spec h is) @ ["end"]) in
             (* development self-check: the model must agree with the spec on well-formed programs *)
-            let m = exp_rows true c.be c.asz bytes and m' = exp_rows false c.be c.asz bytes in
-            if m <> spec || m' <> spec then "SPEC-MODEL-DIFF " ^ spec ^ " VS " ^ m else spec
-          end)
-      done);
+            let m = exp_rows true c.be c.asz bytes in
+            if m <> spec then "SPEC-MODEL-DIFF " ^ spec ^ " VS " ^ m else spec
+          end) in
+        (case "c04.prog" c bytes, fun _ -> Lazy.force e)));
   register "c04.any" ~doc:"arbitrary programs: wild instruction chunks with boundary operands, noise, splices; rows + impl-side oracles"
     (fun ~seed ~n emit ->
-      let r = mk_rng (seed + 4) in
-      for _ = 1 to n do
+      per_case emit ~seed ~salt:6 ~n (fun r _ ->
         let c = gen_raw r ~version:(any_version r) ~wild:true in
         let bytes = unit_of c (gen_any_prog r c) in
-        both emit (case "c04.any" c bytes) (fun dbg -> exp_rows dbg c.be c.asz bytes)
-      done);
+        (case "c04.any" c bytes, fun dbg -> exp_rows dbg c.be c.asz bytes)));
   register "c04.cont" ~doc:"next_row called again after every Err until Ok(None)"
     (fun ~seed ~n emit ->
-      let r = mk_rng (seed + 5) in
-      for _ = 1 to n do
+      per_case emit ~seed ~salt:7 ~n (fun r _ ->
         let c = gen_raw r ~version:(any_version r) ~wild:true in
         let bytes = unit_of c (gen_any_prog r c) in
-        both emit (case "c04.cont" c bytes) (fun dbg -> exp_cont dbg c.be c.asz bytes)
-      done);
+        (case "c04.cont" c bytes, fun dbg -> exp_cont dbg c.be c.asz bytes)));
   register "c04.seq" ~doc:"sequences() bounds + resume_from() rows + completed file table"
     (fun ~seed ~n emit ->
-      let r = mk_rng (seed + 6) in
-      for i = 1 to n do
+      per_case emit ~seed ~salt:8 ~n (fun r i ->
         let c = gen_raw r ~version:(any_version r) ~wild:(i mod 4 = 0) in
         let h0 = hdr_of c [] in
         let prog =
@@ -527,7 +531,6 @@ let () =
           else List.concat (List.init (1 + rand_int r 4) (fun _ -> enc_prog c.be h0 (gen_wf_prog r c (rand_int r 10))))
                @ (if rand_int r 5 = 0 then gen_wild_prog r c 2 else []) in
         let bytes = unit_of c prog in
-        both emit (case "c04.seq" c bytes) (fun dbg -> exp_seq dbg c.be c.asz bytes)
-      done)
+        (case "c04.seq" c bytes, fun dbg -> exp_seq dbg c.be c.asz bytes)))
 
 let init () = ()
